@@ -17,7 +17,12 @@ A sequential warm-up request before and a sequential final request after the thr
 "fresh" scenarios have *no* warm-up: both threads' first requests are the first use ever of a brand-new
 ``_HttpConnImpl`` (lazily created synchronisation objects are then created inside the race; the shim's
 ``Lock()`` works at any time from any thread and every call returns a distinct lock known to the
-scheduler).  "shared headers" scenarios pass the *same* non-empty caller-owned headers dict (without
+scheduler).  "preset" scenarios are NON-INITIAL START STATES obtained by state injection: the harness writes the
+counter attribute of the brand-new connection (9998, 9999, 10000, 19999, 99999, 10**8-1, 10**12-1) before
+anything is sent — no schedule bound reaches 10**4 requests — and "jump" scenarios set it to preset+10**4
+(10**8) after the threads and issue the same number of requests again on the SAME connection: all ids of
+the execution must be pairwise distinct and the numbers must be the injected counter values onwards.
+"shared headers" scenarios pass the *same* non-empty caller-owned headers dict (without
 ``X-Request-ID``) to every request, sequentially within a thread and from both threads: an id the
 library leaks into the caller's dict would be re-sent as if the caller had supplied it.
 
@@ -69,7 +74,9 @@ REQUIRED_FEATURES = ["threads:2", "preemptions:0", "preemptions:1", "preemptions
                      "via:prefixed", "via:clone-wrapper", "caller-id", "two-requests-in-one-thread",
                      "points:full-do_request", "replayed-identically", "fresh-connection-first-use",
                      "shared-caller-headers-dict", "shared-caller-headers-dict:two-threads",
-                     "shared-caller-headers-dict:same-thread"]
+                     "shared-caller-headers-dict:same-thread", "preset-counter", "preset-counter:crosses-10000",
+                     "preset-counter:crosses-decimal-width", "preset-counter:beyond-8-digits",
+                     "preset-counter:jump+10000", "preset-counter:jump+100000000"]
 
 
 def required_features(tier):
@@ -85,8 +92,8 @@ def _r(via, own=None, hdr=None):
 OWN_ID = "caller-supplied-id-7"
 
 SH = "shared"
-SCENARIOS = {
-    # name: (threads, points mode, warm-up request before the threads?)
+_SCEN = {
+    # name: (threads, points mode, warm-up request before the threads?[, injected counter[, jump]])
     "2t-base|bauth": ([[_r("base")], [_r("bauth")]], "sparse", True),
     "2t-prefixed|clone": ([[_r("prefixed")], [_r("clone")]], "sparse", True),
     "2t-fresh-base|clone": ([[_r("base")], [_r("clone")]], "sparse", False),
@@ -99,27 +106,56 @@ SCENARIOS = {
     "3t-base|bauth|clone": ([[_r("base")], [_r("bauth")], [_r("clone")]], "sparse", True),
     "3t-fresh-ownid|prefixed|clone": ([[_r("base", OWN_ID)], [_r("prefixed", hdr=SH)], [_r("clone", hdr=SH)]],
                                       "sparse", False),
+    # ---- non-initial start states (STATE INJECTION, see _inject_counter): the counter of the brand-new
+    # connection is preset, so that the decimal-width / modulo boundaries of the id format are crossed
+    "2t-preset9999-base|bauth": ([[_r("base")], [_r("bauth")]], "sparse", True, 9999),
+    "2t-preset9998-fresh-clone|prefixed": ([[_r("clone")], [_r("prefixed")]], "sparse", False, 9998),
+    "2t-preset10000-base|clone": ([[_r("base")], [_r("clone")]], "sparse", True, 10000),
+    "2t-preset99999-bauth|base": ([[_r("bauth")], [_r("base")]], "sparse", True, 99999),
+    "2t-preset19999-ownid+base|clone": ([[_r("base", OWN_ID), _r("base")], [_r("clone")]], "sparse", True, 19999),
+    "2t-preset1e8-1-base|bauth": ([[_r("base")], [_r("bauth")]], "sparse", True, 10 ** 8 - 1),
+    "2t-preset1e12-1-base|bauth": ([[_r("base")], [_r("bauth")]], "sparse", True, 10 ** 12 - 1),
+    # ids issued from counter n and from n+10000 (and n+10**8) on the SAME connection must differ
+    "2t-preset5-jump10000-base|bauth": ([[_r("base")], [_r("bauth")]], "sparse", True, 5, 10000),
+    "2t-preset9999-jump10000-base|clone": ([[_r("base")], [_r("clone")]], "sparse", True, 9999, 10000),
+    "2t-preset7-jump1e8-base|bauth": ([[_r("base")], [_r("bauth")]], "sparse", True, 7, 10 ** 8),
 }
+SCENARIOS = {k: (tuple(v) + (None, None))[:5] for k, v in _SCEN.items()}
 
 PLAN = {
     # tier: [(scenario, preemption bound, shards per start thread)]
     "quick": [("2t-base|bauth", 2, 6), ("2t-prefixed|clone", 2, 6), ("2t-fresh-base|clone", 2, 6),
               ("2t-ownid+bauth|clone", 2, 8), ("2t-sharedhdr-base+prefixed|bauth", 2, 8),
-              ("2t-full-base|clone", 1, 4), ("2t-full-fresh-sharedhdr-bauth|base", 1, 4)],
+              ("2t-full-base|clone", 1, 4), ("2t-full-fresh-sharedhdr-bauth|base", 1, 4),
+              ("2t-preset9999-base|bauth", 2, 6), ("2t-preset9998-fresh-clone|prefixed", 1, 2),
+              ("2t-preset10000-base|clone", 1, 2), ("2t-preset99999-bauth|base", 1, 2),
+              ("2t-preset19999-ownid+base|clone", 1, 2), ("2t-preset1e8-1-base|bauth", 1, 2),
+              ("2t-preset1e12-1-base|bauth", 0, 1), ("2t-preset5-jump10000-base|bauth", 1, 2),
+              ("2t-preset9999-jump10000-base|clone", 1, 2), ("2t-preset7-jump1e8-base|bauth", 0, 1)],
     "thorough": [("2t-base|bauth", 3, 12), ("2t-prefixed|clone", 3, 12), ("2t-fresh-base|clone", 3, 12),
                  ("2t-ownid+bauth|clone", 3, 16), ("2t-sharedhdr-base+prefixed|bauth", 3, 16), ("2t-2x2", 2, 8),
                  ("2t-full-base|clone", 2, 16), ("2t-full-fresh-sharedhdr-bauth|base", 2, 16),
-                 ("3t-base|bauth|clone", 2, 8), ("3t-fresh-ownid|prefixed|clone", 2, 8)],
+                 ("3t-base|bauth|clone", 2, 8), ("3t-fresh-ownid|prefixed|clone", 2, 8),
+                 ("2t-preset9999-base|bauth", 3, 12), ("2t-preset9998-fresh-clone|prefixed", 2, 6),
+                 ("2t-preset10000-base|clone", 2, 6), ("2t-preset99999-bauth|base", 2, 6),
+                 ("2t-preset19999-ownid+base|clone", 2, 8), ("2t-preset1e8-1-base|bauth", 2, 6),
+                 ("2t-preset1e12-1-base|bauth", 1, 2), ("2t-preset5-jump10000-base|bauth", 2, 6),
+                 ("2t-preset9999-jump10000-base|clone", 2, 6), ("2t-preset7-jump1e8-base|bauth", 1, 2)],
 }
 
 
 def bounds(tier):
     return {"scenarios": {name: {"threads": SCENARIOS[name][0], "points": SCENARIOS[name][1],
-                                 "warm_up_request": SCENARIOS[name][2], "max_preemptions": b}
+                                 "warm_up_request": SCENARIOS[name][2],
+                                 "injected_counter": SCENARIOS[name][3], "injected_jump": SCENARIOS[name][4],
+                                 "max_preemptions": b}
                           for name, b, _ in PLAN[tier]},
             "scheduling_points": "sparse: every bytecode of every _HttpConnImpl method except do_request/"
                                  "logging/constructor + every attribute access on self in do_request + "
                                  "lock blocking; full: additionally every bytecode of do_request",
+            "state_injection": "scenarios named preset*: the harness writes _HttpConnImpl._cur_req_id of the "
+                               "brand-new connection (and again, +jump, after the threads) instead of issuing "
+                               "10**4 .. 10**12 requests",
             "run_to_completion": True}
 
 
@@ -279,9 +315,29 @@ def _number(rid):
     return int(digits) if digits else None
 
 
-def execute(threads, deviations, warm=True):
-    """One controlled execution.  Returns (Execution, observation dict)."""
+COUNTER_ATTR = "_cur_req_id"      # ak/conn_http.py:88 — "next sequence number; None disables ids"
+
+
+def _inject_counter(world, value):
+    """STATE INJECTION: put the shared connection into the state "``value`` ids have been handed out"
+    without issuing them (no bound on schedules reaches 10**4 requests).  Only the documented counter
+    attribute is written, only between requests, from the harness thread."""
+    impl = world["base"].conn_impl
+    cur = getattr(impl, COUNTER_ATTR, None)
+    if not isinstance(cur, int) or isinstance(cur, bool):
+        raise sched.HarnessError(f"state injection impossible: _HttpConnImpl.{COUNTER_ATTR} is {cur!r}")
+    setattr(impl, COUNTER_ATTR, value)
+
+
+def execute(threads, deviations, warm=True, preset=None, jump=None):
+    """One controlled execution.  Returns (Execution, observation dict).
+
+    preset: counter value injected into the brand-new connection before anything is sent.
+    jump:   after the threads, the counter is set to preset+jump and as many sequential requests as were
+            issued before are sent again ("j0", "j1", ...) instead of the single final request."""
     world, rec, shared = _build_world()
+    if preset is not None:
+        _inject_counter(world, preset)
     if warm:
         _do(world, _r("base"), "warm")
 
@@ -296,7 +352,15 @@ def execute(threads, deviations, warm=True):
     final_err = None
     if not ex.deadlock and not ex.error:
         try:
-            _do(world, _r("base"), "final")
+            if jump is None:
+                _do(world, _r("base"), "final")
+            else:
+                _inject_counter(world, preset + jump)
+                n = (1 if warm else 0) + sum(1 for reqs in threads for rq in reqs if rq["own_id"] is None)
+                for i in range(n):
+                    _do(world, _r(("base", "bauth", "clone")[i % 3]), f"j{i}")
+        except sched.HarnessError:
+            raise
         except Exception as e:  # noqa
             final_err = f"{type(e).__name__}: {e}"
     sent = {}
@@ -307,7 +371,7 @@ def execute(threads, deviations, warm=True):
     return ex, obs
 
 
-def judge(threads, obs, warm=True):
+def judge(threads, obs, warm=True, preset=None, jump=None):
     """-> (violation or None, outcome label).  violation = (signature, message, observed, expected)."""
     if obs["deadlock"]:
         return ("deadlock", "threads wait for each other forever", obs["deadlock"], "all requests complete"), "deadlock"
@@ -317,8 +381,14 @@ def judge(threads, obs, warm=True):
         return ("request-raised-" + e.split(":")[0], "a request raised under this schedule", e,
                 "request completes"), "raised"
     sent = obs["sent"]
-    tokens = ([("warm", None)] if warm else []) + [(f"t{t}r{k}", rq["own_id"]) for t, reqs in enumerate(threads)
-                                                   for k, rq in enumerate(reqs)] + [("final", None)]
+    seg1 = ([("warm", None)] if warm else []) + [(f"t{t}r{k}", rq["own_id"]) for t, reqs in enumerate(threads)
+                                                 for k, rq in enumerate(reqs)]
+    seg2 = []
+    if jump is None:
+        seg1.append(("final", None))
+    else:
+        seg2 = [(f"j{i}", None) for i in range(sum(1 for _, own in seg1 if own is None))]
+    tokens = seg1 + seg2
     for tok, _ in tokens:
         if len(sent.get(tok, [])) != 1:
             return ("request-not-sent-once", f"request {tok} reached the opener {len(sent.get(tok, []))} times",
@@ -335,8 +405,10 @@ def judge(threads, obs, warm=True):
             gen.append((tok, rid))
     ids = [rid for _, rid in gen]
     nums = {tok: _number(rid) for tok, rid in gen}
-    known = [v for v in nums.values() if v is not None]
-    w = nums["warm"] if warm else (min(known) - 1 if known else None)
+    seg1_gen = [tok for tok, own in seg1 if own is None]
+    known = [nums[t] for t in seg1_gen if nums[t] is not None]
+    w = (preset - (1 if not warm else 0)) if preset is not None else \
+        nums["warm"] if warm else (min(known) - 1 if known else None)
     label = "|".join(f"T{t}:" + ",".join("own" if rq["own_id"] is not None
                                          else str(None if nums[f't{t}r{k}'] is None or w is None
                                                   else nums[f't{t}r{k}'] - w)
@@ -348,14 +420,26 @@ def judge(threads, obs, warm=True):
                 {"ids": dict(gen), "duplicates": dup}, "pairwise distinct ids"), label
     if any(v is None for v in nums.values()):
         return ("id-without-number", "no sequence number found in an id", dict(gen), "ids with numbers"), label
-    vals = sorted(nums.values())
-    if len(set(vals)) != len(vals):
+    if len(set(nums.values())) != len(nums):
         return ("number-repeated", "two ids carry the same sequence number", dict(gen), "distinct numbers"), label
-    want = list(range(vals[0], vals[0] + len(vals)))
-    if vals != want or nums["final"] != want[-1] or (warm and nums["warm"] != want[0]):
+    vals = sorted(nums[t] for t in seg1_gen)
+    first = preset if preset is not None else vals[0]
+    want = list(range(first, first + len(vals)))
+    if preset is not None and vals[0] != preset and vals == list(range(vals[0], vals[0] + len(vals))):
+        return ("number-differs-from-counter", "the number in the id is not the connection's counter value "
+                                               "(state injected by the harness)",
+                {"numbers": nums}, {"first_number": preset}), label
+    if vals != want or (jump is None and nums["final"] != want[-1]) or (warm and nums["warm"] != want[0]):
         return ("gap-in-numbers", "sequence numbers are not handed out consecutively "
-                     "(a number was skipped or consumed by a request that did not use it)",
-                {"numbers": nums}, {"numbers": f"{want[0]}..{want[-1]} with final={want[-1]}"}), label
+                     "(a number was skipped, wrapped around or consumed by a request that did not use it)",
+                {"numbers": nums}, {"numbers": f"{want[0]}..{want[-1]}" + ("" if jump is not None
+                                                                            else f" with final={want[-1]}")}), label
+    if seg2:
+        got2 = [nums[t] for t, _ in seg2]
+        want2 = list(range(preset + jump, preset + jump + len(seg2)))
+        if got2 != want2:
+            return ("gap-in-numbers", "sequence numbers after the injected jump are not the counter values",
+                    {"numbers": nums}, {"after_jump": want2}), label
     if not obs["shared_impl"]:
         return ("impl-not-shared", "derived connections do not share the implementation object",
                 None, "one _HttpConnImpl"), label
@@ -363,8 +447,19 @@ def judge(threads, obs, warm=True):
 
 
 # --------------------------------------------------------------------------- exploration
-def _features(name, threads, mode, warm=True):
+def _features(name, threads, mode, warm=True, preset=None, jump=None):
     f = {f"threads:{len(threads)}"}
+    if preset is not None:
+        n = (1 if warm else 0) + sum(1 for reqs in threads for rq in reqs if rq["own_id"] is None) + 1
+        f.add("preset-counter")
+        if preset // 10000 != (preset + n - 1) // 10000:
+            f.add("preset-counter:crosses-10000")
+        if len(str(preset)) != len(str(preset + n - 1)):
+            f.add("preset-counter:crosses-decimal-width")
+        if preset >= 10 ** 8 - 1:
+            f.add("preset-counter:beyond-8-digits")
+        if jump is not None:
+            f.add(f"preset-counter:jump+{jump}")
     if not warm:
         f.add("fresh-connection-first-use")
     nsh = [sum(1 for rq in reqs if rq.get("hdr") == "shared") for reqs in threads]
@@ -388,18 +483,19 @@ def _features(name, threads, mode, warm=True):
 
 
 def _case(name, ex):
-    threads, mode, warm = SCENARIOS[name]
-    return {"scenario": name, "threads": threads, "points": mode, "warm": warm, "schedule": ex.deviations}
+    threads, mode, warm, preset, jump = SCENARIOS[name]
+    return {"scenario": name, "threads": threads, "points": mode, "warm": warm, "preset": preset, "jump": jump,
+            "schedule": ex.deviations}
 
 
 def _visit_factory(name, acc, seed):
-    threads, mode, warm = SCENARIOS[name]
-    base_feats = _features(name, threads, mode, warm)
+    threads, mode, warm, preset, jump = SCENARIOS[name]
+    base_feats = _features(name, threads, mode, warm, preset, jump)
     counter = [0]
 
     def visit(ex):
         obs = ex.obs
-        v, label = judge(threads, obs, warm)
+        v, label = judge(threads, obs, warm, preset, jump)
         feats = list(base_feats) + [f"preemptions:{ex.preemptions}"]
         if ex.preempt_in_cs:
             feats.append("preempt-in-critical-region")
@@ -414,7 +510,7 @@ def _visit_factory(name, acc, seed):
         counter[0] += 1
         check_replay = v is not None or (counter[0] + seed) % 40 == 0
         if check_replay:
-            ex2, obs2 = execute(threads, ex.deviations, warm)
+            ex2, obs2 = execute(threads, ex.deviations, warm, preset, jump)
             if ex2.fingerprint() != ex.fingerprint() or obs2 != obs:
                 raise sched.HarnessError(f"replay of schedule {ex.deviations} of {name} diverged")
             acc.feat("replayed-identically")
@@ -430,12 +526,12 @@ def _visit_factory(name, acc, seed):
 
 def run_shard(shard, tier, seed, acc):
     name, bound, start, r, m = shard
-    threads, mode, warm = SCENARIOS[name]
+    threads, mode, warm, preset, jump = SCENARIOS[name]
     rng = random.Random(seed * 7919 + sum(map(ord, name)) * 31 + start * 7 + r) if seed else None
     visit = _visit_factory(name, acc, seed)
     with _Harness(mode):
         def run(dev):
-            ex, obs = execute(threads, dev, warm)
+            ex, obs = execute(threads, dev, warm, preset, jump)
             ex.obs = obs
             return ex
         root = [[0, start]] if start != 0 else []
@@ -448,14 +544,15 @@ def run_shard(shard, tier, seed, acc):
 
 def replay(case, acc):
     threads, mode, warm = case["threads"], case["points"], case.get("warm", True)
+    preset, jump = case.get("preset"), case.get("jump")
     with _Harness(mode):
-        ex, obs = execute(threads, case["schedule"], warm)
+        ex, obs = execute(threads, case["schedule"], warm, preset, jump)
         if ex.error:
             raise sched.HarnessError(ex.error)
-        ex2, obs2 = execute(threads, case["schedule"], warm)
+        ex2, obs2 = execute(threads, case["schedule"], warm, preset, jump)
         if ex2.fingerprint() != ex.fingerprint() or obs2 != obs:
             raise sched.HarnessError("replay diverged: nondeterminism not owned")
-    v, label = judge(threads, obs, warm)
+    v, label = judge(threads, obs, warm, preset, jump)
     acc.case(nontrivial=bool(ex.preempt_in_cs), outcome=label)
     acc.trans(ex.nsteps)
     if v is not None:
